@@ -432,6 +432,22 @@ def r02_10(ctx):
             if e:
                 dot_targets.append(e[0])
                 dot_tests.add(b)
+    # the same test written as a comparison of the peeked Option<u8> with Some(b'.')
+    for b, t in fn.calls():
+        if not callee_is(t, "eq", "ne") or "Option<u8>" not in " ".join((t.get("rgargs") or []) + (t.get("gargs") or [])):
+            continue
+        dot = False
+        for a in t["args"][:2]:
+            l = op_local(a)
+            cands = [a] + ([lf[1] for lf in backward_slice(fn, [l])[1] if lf[0] == "const"] if l is not None else [])
+            for c in cands:
+                bs = c.get("bytes") if isinstance(c, dict) else None
+                if bs and "Option<u8>" in c.get("ty", "") and bytes.fromhex(bs)[-1:] == b".":
+                    dot = True
+        e = bool_switch_edges(fn, t["dest"][0]) if dot else None
+        if e:
+            dot_targets.append(e[0] if callee_is(t, "eq") else e[1])
+            dot_tests.add(b)
     ctx.floor("R02.10", "tests for '.' in the validating number skipper", len(dot_tests), 1)
     # the fraction flag: bool locals assigned `true` somewhere and tested right after a dot edge
     setters = collections.defaultdict(set)
@@ -450,13 +466,14 @@ def r02_10(ctx):
         if tested:
             flag = l
     if flag is None:
-        ctx.ob("R02.10", "fraction-flag", False, fn.loc(), "cannot identify the flag that records a consumed fraction (fail closed)")
-        return
+        # no flag: the scanner follows the grammar in a straight line.  The same clause without a flag to set: once a '.'
+        # is consumed no test for '.' can be reached again
+        setters[None] = set()
     # after the flag test passed (flag == false edge) is where the '.' is really accepted
     accept = []
     for d in dot_targets:
         tgt = d
-        for bb in [d] + fn.succs(d):
+        for bb in ([d] + fn.succs(d)) if flag is not None else []:
             t = fn.blocks[bb]["term"]
             if t["k"] == "switch" and op_local(t["discr"]) is not None and flag in (backward_slice(fn, [op_local(t["discr"])])[0] | {op_local(t["discr"])}):
                 l = op_local(t["discr"])
@@ -472,8 +489,8 @@ def r02_10(ctx):
         reach = fn.reachable_from(a, avoid=setters[flag])
         again = reach & dot_tests
         ctx.ob("R02.10", f"dot-accept#{k}", not again, fn.loc(fn.blocks[a]["term"]["ln"]),
-               f"after a '.' is consumed the fraction flag `{fn.locals[flag].get('name')}` is set on every path that can test for '.' again" if not again else
-               f"after a '.' is consumed a path reaches another test for '.' without setting `{fn.locals[flag].get('name')}`: a second fraction (1.5.5) is skipped as one number")
+               (f"after a '.' is consumed the fraction flag `{fn.locals[flag].get('name')}` is set on every path that can test for '.' again" if flag is not None else "after a '.' is consumed no test for '.' is reachable again") if not again else
+               f"after a '.' is consumed a path reaches another test for '.'" + (f" without setting `{fn.locals[flag].get('name')}`" if flag is not None else "") + ": a second fraction (1.5.5) is skipped as one number")
     # a '.' must be followed by a digit: from the edge on which the dot is accepted, the digit check is passed before the
     # scanner looks at anything else (the next chunk, the exponent, the end of the number)
     digit = {b for b, t in fn.calls() if callee_is(t, "skip_single_digit")}
